@@ -76,9 +76,10 @@ func TestVF_C12_Forgeries(t *testing.T) {
 		kp := drawKey(rt, false, true)
 		pk := kp.Pk
 		// two credentials with 4 attributes; attribute values small enough for table statements
+		nattr := rapid.IntRange(4, 6).Draw(rt, "nattr")
 		mk := func(label string) []*big.Int {
 			var out []*big.Int
-			for i := 0; i < 4; i++ {
+			for i := 0; i < nattr; i++ {
 				out = append(out, bi(int64(rapid.IntRange(1000, 1<<30).Draw(rt, fmt.Sprintf("%s%d", label, i)))))
 			}
 			return out
@@ -102,7 +103,7 @@ func TestVF_C12_Forgeries(t *testing.T) {
 		var sts []gst
 		ns := rapid.IntRange(1, 3).Draw(rt, "nstmts")
 		for k := 0; k < ns; k++ {
-			idx := rapid.SampledFrom([]int{2, 3}).Draw(rt, "idx")
+			idx := rapid.IntRange(2, nattr).Draw(rt, "idx")
 			m := credA.Attributes[idx]
 			sign := rapid.SampledFrom([]int{1, -1}).Draw(rt, "sign")
 			var s *c13Stmt
@@ -122,10 +123,23 @@ func TestVF_C12_Forgeries(t *testing.T) {
 			rs[g.idx] = append(rs[g.idx], g.s.statement())
 			descs = append(descs, g.desc)
 		}
+		// disclosure set: attribute 1 always, others (without statements) at random - so that the
+		// number of hidden attributes varies relative to the indices carrying range proofs
+		D := []int{1}
+		for i := 2; i <= nattr; i++ {
+			if _, has := rs[i]; !has && rapid.Bool().Draw(rt, fmt.Sprintf("disc%d", i)) {
+				D = append(D, i)
+			}
+		}
+		descs = append(descs, fmt.Sprintf("disclosed=%v of %d attributes", D, nattr))
+		isD := map[int]bool{}
+		for _, i := range D {
+			isD[i] = true
+		}
 		ctx := bi(int64(rapid.IntRange(1, 1<<30).Draw(rt, "ctx")))
 		nonce := bi(int64(rapid.IntRange(1, 1<<30).Draw(rt, "nonce")))
 		det := func(what string) map[string]any {
-			return map[string]any{"key": kp.Name, "attrsA": fmt.Sprint(attrsA), "statements": descs, "forgery": what}
+			return map[string]any{"key": kp.Name, "attrsA": fmt.Sprint(attrsA), "attrsB": fmt.Sprint(attrsB), "statements": descs, "forgery": what}
 		}
 
 		// ---- false statements one beyond the boundary must be refused
@@ -143,7 +157,7 @@ func TestVF_C12_Forgeries(t *testing.T) {
 			var p *ProofD
 			var err error
 			ps := vfh.Guard(func() {
-				p, err = credA.CreateDisclosureProof([]int{1}, map[int][]*rangeproof.Statement{g.idx: {f.statement()}}, false, ctx, nonce)
+				p, err = credA.CreateDisclosureProof(D, map[int][]*rangeproof.Statement{g.idx: {f.statement()}}, false, ctx, nonce)
 			})
 			rec.Case("false-statement-at-boundary", true, fmt.Sprintf("f|%s|%s|%v", kp.Name, g.desc, attrsA))
 			if ps != "" {
@@ -158,12 +172,12 @@ func TestVF_C12_Forgeries(t *testing.T) {
 		}
 
 		// ---- honest list: credential A with range proofs, credential B without, same session
-		bA, err := credA.CreateDisclosureProofBuilder([]int{1}, rs, false)
+		bA, err := credA.CreateDisclosureProofBuilder(D, rs, false)
 		if err != nil {
 			rec.Fail(rt, "honest-builder-error", det(err.Error()))
 			return
 		}
-		bB, err := credB.CreateDisclosureProofBuilder([]int{1}, nil, false)
+		bB, err := credB.CreateDisclosureProofBuilder(D, nil, false)
 		if err != nil {
 			rec.Fail(rt, "honest-builder-error", det(err.Error()))
 			return
@@ -230,20 +244,42 @@ func TestVF_C12_Forgeries(t *testing.T) {
 				return true
 			}
 		}
-		other := 5 - first // the other statement-capable hidden index (2 <-> 3)
-		if !present("moved-to-other-hidden-index", true, move(other)) ||
-			!present("moved-to-hidden-index-without-statements", true, move(4)) ||
-			!present("moved-to-disclosed-index", true, move(1)) ||
+		var otherHidden []int
+		for i := 2; i <= nattr; i++ {
+			if !isD[i] && i != first {
+				otherHidden = append(otherHidden, i)
+			}
+		}
+		for _, oh := range otherHidden {
+			if !present("moved-to-other-hidden-index", true, move(oh)) {
+				return
+			}
+		}
+		if !present("moved-to-disclosed-index", true, move(D[len(D)-1])) ||
 			!present("moved-to-secret-key-index", true, move(0)) ||
-			!present("moved-beyond-largest-hidden-index", true, move(5)) ||
+			!present("moved-beyond-largest-hidden-index", true, move(nattr+1)) ||
 			!present("moved-to-last-base", true, move(len(pk.R)-1)) ||
 			!present("moved-to-index-len(R)", true, move(len(pk.R))) ||
 			!present("moved-to-negative-index", true, move(-1)) {
 			return
 		}
+		// attached to the other credential's proof (made without range statements) at each of its
+		// hidden indices: must be rejected - and if accepted, the truth oracle judges the claim
+		for i := 2; i <= nattr; i++ {
+			i := i
+			if isD[i] {
+				continue
+			}
+			if !present("copied-to-other-credential-at-hidden-index", true, func(l ProofList) bool {
+				B(l).RangeProofs = map[int][]*rangeproof.Proof{i: A(l).RangeProofs[first]}
+				return true
+			}) {
+				return
+			}
+		}
 		if !present("copied-beyond-largest-hidden-index", true, func(l ProofList) bool {
 			p := A(l)
-			p.RangeProofs[6] = p.RangeProofs[first]
+			p.RangeProofs[nattr+1] = p.RangeProofs[first]
 			return true
 		}) || !present("duplicated-at-same-index", true, func(l ProofList) bool {
 			p := A(l)
